@@ -85,7 +85,55 @@ class Norm:
             return self.sx(t[2][0], elem_env)
         if h == "app" and t[1] == "concat_str":
             return [a for x in t[2] for a in self.sx(x, elem_env)]
+        if h == "sym" and len(t) == 3 and str(t[2]).startswith("after_loop:"):
+            r = self._carried_text(t)
+            if r is not None:
+                return r
         return [("?", fmt_term(t)[:120])]
+
+    def _carried_text(self, t):
+        """a String variable appended to on every pass of a loop: its text after the loop is the text before it followed
+        by the passes' pieces — `if i > 0 { sep } piece` is J(piece; sep), world-wise like a join"""
+        from ..render import _says_first, _says_later
+        for e in _all_effs(self.eff):
+            c = (e.get("carried") or {}).get(t) if e["k"] == "foreach" else None
+            if c is None:
+                continue
+            it, elem = e["args"][0], e.get("elem")
+            idx = ("sym", elem[1], "index") if elem else None
+            passes = []
+            for step, conds, effs in zip(c["steps"], c["conds"], c["effs"]):
+                if step == c["acc"]:
+                    pieces = ()
+                elif isinstance(step, tuple) and step[:2] == ("app", "concat_str") and step[2][0] == c["acc"]:
+                    pieces = step[2][1:]
+                else:
+                    return None
+                n = Norm(effs, self.seq_term, self.nonempty)
+                atoms = merge([a for x in pieces for a in n.sx(x)])
+                self.problems += n.problems
+                passes.append((conds, self._subst_elem(atoms, elem)))
+            if not c.get("every_iteration") or e.get("exits") and any(not _is_render_failure(p) for p in e["exits"]):
+                self.problems.append("the loop that appends the parts can skip or stop early")
+            first = [a for cs, a in passes if idx is not None and _says_first(cs, idx)]
+            later = [a for cs, a in passes if idx is not None and _says_later(cs, idx)]
+            if len(passes) == 1 and not first and not later:
+                tmpl, sep = passes[0][1], ""
+            elif len(passes) == 2 and len(first) == 1 and len(later) == 1 and later[0][:1] and later[0][0][0] == "lit" and merge(later[0][1:]) == first[0]:
+                tmpl, sep = first[0], later[0][0][1]
+            elif len(passes) == 2 and len(first) == 1 and len(later) == 1 and later[0] and later[0][0][0] == "lit" and first[0] and later[0][0][1].endswith(first[0][0][1] if first[0][0][0] == "lit" else "\0"):
+                return None
+            else:
+                return None
+            out = list(self.sx(c["init"]))
+            if self._is_world_seq(it):
+                if self.nonempty:
+                    out.append(("J", tuple(tmpl), sep, self._orient(it)))
+            else:
+                self.problems.append("a loop over a sequence other than the object's own (%s) appends text: its emptiness is not fixed by the case split" % fmt_term(it)[:80])
+                out.append(("J", tuple(tmpl), sep, fmt_term(it)[:60]))
+            return out
+        return None
 
     # ---- sequences → parts: ("one", atoms) | ("many", element atoms, iterator term)
     def seq(self, t):
@@ -197,6 +245,12 @@ class Norm:
     def _orient(self, it):
         plain = it[2] == "fwd" and all((f[0] if isinstance(f, tuple) else f) in ("map", "enumerate") for f in it[3])
         return "forwards" if plain else "NOT a plain forward traversal (%s)" % fmt_term(it)[:60]
+
+
+def _is_render_failure(p):
+    """a loop exit taken only because rendering an element failed (`?` on the recursive rendering)"""
+    o = p["out"]
+    return o[0] in ("ret", "val") and isinstance(o[1], tuple) and o[1][:1] == ("err",)
 
 
 def strip_sorted(t):
@@ -384,6 +438,23 @@ def decide_pointer(fx, body):
         res = ex.run_body(body, args, State())
         oks = [(s, o) for s, o in res if o[0] == "val" and isinstance(o[1], tuple) and (o[1][:1] == ("ok",) or o[1][:1] == ("fall",))]
         fails = [(s, o) for s, o in res if not (o[0] == "val" and isinstance(o[1], tuple) and (o[1][:1] == ("ok",) or o[1][:1] == ("fall",)))]
+        # `Ok(self.to_string())`: the text is what `Display for Pointer` writes for this kind — read off its rendering
+        if oks and {o[1] for s, o in oks} == {("ok", selfv)}:
+            from .. import render as _R
+            disp = fx.body("<%s as std::fmt::Display>::fmt" % P)
+            shown = None
+            if disp is not None:
+                try:
+                    ps = _R.render_paths(fx, disp, [selfv, ("var", "f")], ("var", "f"))
+                    segs = {tuple((sg[0],) + tuple(sg[1:3]) if sg[0] == "arg" else sg for sg in p_["segs"]) for p_ in ps}
+                    if len(segs) == 1:
+                        shown = next(iter(segs))
+                except Exception:  # noqa
+                    shown = None
+            if shown is not None and variant == "Null" and shown == (("lit", "null"),):
+                oks = [(s, ("val", ("ok", lit("null")))) for s, o in oks]
+            elif shown is not None and variant in ("Integer", "Boolean") and shown == (("arg", x, "Display"),):
+                oks = [(s, ("val", ("ok", x))) for s, o in oks]
         if variant == "Null":
             vals = {o[1] for s, o in oks}
             ok = vals == {("ok", lit("null"))} and not fails
